@@ -129,6 +129,8 @@ func LiveMPD(a *asset, mpdName string, cfg *ResponseConfig, drmCfg *drm.DrmConfi
 
 	adaptationSets := orderAdaptationSetsByContentType(period.AdaptationSets)
 	var refSegEntries segEntries
+	var videoSegEntries segEntries // Entries of the first video adaptation set (aligned with period boundaries)
+	hasVideoSegEntries := false
 	for asIdx, as := range adaptationSets {
 		if as.SegmentTemplate != nil {
 			as.SegmentTemplate.EndNumber = nil // Never output endNumber
@@ -259,6 +261,9 @@ func LiveMPD(a *asset, mpdName string, cfg *ResponseConfig, drmCfg *drm.DrmConfi
 			}
 		}
 
+		if as.ContentType == "video" && !hasVideoSegEntries {
+			videoSegEntries, hasVideoSegEntries = se, true
+		}
 		templateType := cfg.liveMPDType()
 		if as.ContentType == "image" {
 			templateType = segmentNumber
@@ -329,6 +334,14 @@ func LiveMPD(a *asset, mpdName string, cfg *ResponseConfig, drmCfg *drm.DrmConfi
 		if err != nil {
 			return nil, fmt.Errorf("lastPeriodStartTime: %w", err)
 		}
+	} else {
+		if !hasVideoSegEntries {
+			videoSegEntries = refSegEntries
+		}
+		mpd.PublishTime, err = multiPeriodPublishTime(mpd, cfg, wTimes, refSegEntries, videoSegEntries)
+		if err != nil {
+			return nil, fmt.Errorf("multiPeriodPublishTime: %w", err)
+		}
 	}
 
 	if afterStop {
@@ -339,6 +352,55 @@ func LiveMPD(a *asset, mpdName string, cfg *ResponseConfig, drmCfg *drm.DrmConfi
 	addPatchLocation(mpd, cfg)
 
 	return mpd, nil
+}
+
+// multiPeriodPublishTime returns the time of the last change of a multi-period SegmentTimeline MPD.
+// Beyond a new last segment, a change is a new (possibly still empty) last period, the oldest period
+// leaving the timeShiftBuffer, and the first segment inside the oldest period leaving it.
+func multiPeriodPublishTime(mpd *m.MPD, cfg *ResponseConfig, wTimes wrapTimes, refSE, videoSE segEntries) (m.DateTime, error) {
+	publishS := calcPublishTime(cfg, refSE.lsi)
+	lastStart, err := lastPeriodStartTime(mpd)
+	if err != nil {
+		return "", err
+	}
+	lastStartS, err := lastStart.ConvertToSeconds()
+	if err != nil {
+		return "", err
+	}
+	// The last period appeared at its start, unless a segment of it was made available earlier
+	// by the availabilityTimeOffset. That instant is then covered by the segment availability times.
+	firstAvailS, hasSeg := firstSegAvailTimeS(cfg, mpd.Periods[len(mpd.Periods)-1])
+	if !hasSeg || firstAvailS > lastStartS {
+		publishS = math.Max(publishS, lastStartS)
+	}
+	periodDur := 3600 / *cfg.PeriodsPerHour
+	startPeriodNr := wTimes.startTimeMS / (periodDur * 1000)
+	if startPeriodNr > 0 {
+		// The previous period left the timeShiftBuffer when the window start passed its end
+		tsbdMS := wTimes.nowMS - wTimes.startTimeMS
+		publishS = math.Max(publishS, float64(startPeriodNr*periodDur*1000+tsbdMS)/1000)
+	}
+	if len(videoSE.entries) > 0 && videoSE.entries[0].T != nil &&
+		*videoSE.entries[0].T > uint64(startPeriodNr*periodDur)*uint64(videoSE.mediaTimescale) {
+		// The segment before the first one belonged to the same period, so its removal is visible
+		publishS = math.Max(publishS, windowStartChangeTimeS(cfg, refSE))
+	}
+	return publishTimeFromS(publishS), nil
+}
+
+// firstSegAvailTimeS returns the availability time of the first segment in the
+// SegmentTimeline of the first AdaptationSet of the period that has one.
+func firstSegAvailTimeS(cfg *ResponseConfig, p *m.Period) (float64, bool) {
+	for _, as := range p.AdaptationSets {
+		st := as.SegmentTemplate
+		if st == nil || st.SegmentTimeline == nil || len(st.SegmentTimeline.S) == 0 || st.SegmentTimeline.S[0].T == nil {
+			continue
+		}
+		first := st.SegmentTimeline.S[0]
+		endS := float64(*first.T+first.D) / float64(st.GetTimescale())
+		return float64(cfg.StartTimeS) + endS - cfg.AvailabilityTimeOffsetS, true
+	}
+	return 0, false
 }
 
 // lastPeriodStartTime returns the absolute startTime of the last Period.
